@@ -72,7 +72,7 @@ def rich_world(seed, n_chroms=6, genes_per_chrom=3, groups=3, multimappers=True,
     rng = w.rng
     for ci in range(n_chroms):
         cname = "chr%d" % (ci + 1)
-        w.add_chrom(cname, 60000 + ci * 4321 + genes_per_chrom * 9000 + extra_len + (138000 if zoo else 0))
+        w.add_chrom(cname, 60000 + ci * 4321 + genes_per_chrom * 9000 + extra_len + (146000 if zoo else 0))
         pos = 1500
         for gi in range(genes_per_chrom):
             gid = "G%d_%d" % (ci + 1, gi + 1)
@@ -645,6 +645,31 @@ def dense_two_exon_locus(w, gid, chrom, p, strand, n=56, cov=6):
     return g, p + 30 * n + 549
 
 
+def antisense_shared_exon_locus(w, gid, chrom, p):
+    """Gene A ('+', three exons) and antisense gene B ('-', two exons) whose exon next to A is A's first exon exactly (same start and end,
+    other strand), plus two unspliced antisense genes with identical coordinates: exon records equal in everything but the strand."""
+    p += 1200
+    a = [(p, p + 300), (p + 900, p + 1150), (p + 1800, p + 2200)]
+    b = [(p - 1000, p - 700), (p, p + 300)]
+    ga, gb = Gene(gid + "A", chrom, "+"), Gene(gid + "B", chrom, "-")
+    ga.transcripts.append(Transcript(gid + "A.t1", gid + "A", chrom, "+", a, True, "antisense-shared-exon"))
+    gb.transcripts.append(Transcript(gid + "B.t1", gid + "B", chrom, "-", b, True, "antisense-shared-exon"))
+    for g in (ga, gb):
+        for intr in g.transcripts[0].introns:
+            w.plant_sites(chrom, intr, g.strand)
+    m = (p + 3200, p + 3900)
+    gm, gn = Gene(gid + "M", chrom, "+"), Gene(gid + "N", chrom, "-")
+    gm.transcripts.append(Transcript(gid + "M.t1", gid + "M", chrom, "+", [m], True, "antisense-unspliced-same-coordinates"))
+    gn.transcripts.append(Transcript(gid + "N.t1", gid + "N", chrom, "-", [m], True, "antisense-unspliced-same-coordinates"))
+    w.genes += [ga, gb, gm, gn]
+    for g in (ga, gb, gm, gn):
+        t = g.transcripts[0]
+        for _ in range(5):
+            w.make_read(chrom, list(t.exons), polya=30 if g.strand == "+" else 0, polyt=30 if g.strand == "-" else 0, flag=0 if g.strand == "+" else 16,
+                        truth={"src": t.id, "class": "exact"})
+    return [ga, gb, gm, gn], p + 3900
+
+
 def near_site_novel_locus(w, gid, chrom, p, strand):
     """t1 = e1..e5, t2 = e1-e3-e5 (annotated); the unannotated isoform e1-e2-e3-e5' is a new combination of annotated introns except
     that its last junction (first for '-') sits 3 bp away from the annotated site of t2's intron: that intron is unannotated, although it
@@ -717,7 +742,7 @@ def gene_valley_locus(w, gid, chrom, p, strand):
 
 ZOO_ALL = ("ambiguous_only", "twins", "contested", "intronic", "apa", "alt_terminal", "shifted_site", "shared_chain", "same_coords",
            "one_bp_exon", "lowmapq_two_exon", "mono_only", "gap_gene", "gene_valley", "odd_chroms",
-           "near_site_novel", "low_cov_novel", "two_exon_alt_polya", "dense_two_exon")
+           "near_site_novel", "low_cov_novel", "two_exon_alt_polya", "dense_two_exon", "antisense_shared_exon")
 ZOO_NO_TIES = tuple(z for z in ZOO_ALL if z != "twins")
 
 
@@ -855,6 +880,9 @@ def add_zoo(w, parts=ZOO_ALL):
             # on the longest sequence (handled first)
             dense_two_exon_locus(w, "ZDN" + tag, chrom, _free_pos(w, chrom, 3000), "+-"[ci % 2])
             placed.add("dense_two_exon")
+        if "antisense_shared_exon" in parts and ci % 2 == 0 and room(8000):
+            antisense_shared_exon_locus(w, "ZAS" + tag, chrom, _free_pos(w, chrom))
+            placed.add("antisense_shared_exon")
         if "gap_gene" in parts and ci == 1 and room(36000):
             gap_gene_locus(w, "ZGAP" + tag, chrom, _free_pos(w, chrom, 4000), "+-"[ci % 2])
             placed.add("gap_gene")
